@@ -16,7 +16,8 @@ E1_CALLS = ['create_directory', 'remove_directory', 'unlink_file', 'filestat_get
 E2_NAMES = ['a', 'b', 'd', 'd/a', 'missing/x', '<absolute path of a>', '<256-byte component>', 'a (relative to opened d)', 'n (relative to opened d)', 'a/', 'b/']
 # content classes for single operations (histories of length 1 that are not extended)
 E2_WIDE = ['./a', 'd/../a', 'd//a', 'd/./a', 'a/.', 'd/.', 'd/..', '.', '..', '/', 'd/', 'd//', 'a b', '-x', 'a\\b', '*', '\xc3\xa9', '\xff\xfe', '%s%n', 'd/a/', './', 'd/../d/a',
-           '../a (relative to opened d)', '. (relative to opened d)', './a (relative to opened d)']
+           '../a (relative to opened d)', '. (relative to opened d)', './a (relative to opened d)',
+           'a (relative to d opened without the directory flag)', 'n (relative to d opened without the directory flag)', '../a (relative to d opened without the directory flag)']
 E2_CORE = len(E2_NAMES)
 E2_NAMES = E2_NAMES + E2_WIDE
 E2_OPS = {'md': 'path_create_directory', 'rd': 'path_remove_directory', 'ul': 'path_unlink_file', 'rn': 'path_rename', 'sl': 'path_symlink',
